@@ -749,7 +749,7 @@ func run(c *lib.Ctx) {
 		hi := probe(c, w.History)
 		c.Eval()
 		if !hi.ok {
-			inconclusive(c, "replay: " + hi.reason)
+			inconclusive(c, "replay: "+hi.reason)
 			return
 		}
 		c.Cur("c10-case", mustJSON(map[string]any{"history": w.History, "kill": w.Kill}))
@@ -789,6 +789,9 @@ func run(c *lib.Ctx) {
 			continue // debugging aid, never set by the driver
 		}
 		h := genHistory(c.Seed, hidx, c.Thorough())
+		if h.ParentDeath && pos == 0 {
+			c.Observe("histories-ending-with-death-of-a-parent", 1)
+		}
 		c.Cur("c10-dry", mustJSON(map[string]any{"history": h}))
 		hi := probe(c, h)
 		if !hi.ok {
